@@ -205,7 +205,7 @@ class BatchSage:
                 x_s[feature] = x_i[feature]
                 predictions = []
                 for _ in range(1, n_inner_samples + 1):
-                    x_marginal = x_data[random.randint(0, n_data - 1)]
+                    x_marginal = x_data[random.randint(0, len(x_data) - 1)]
                     x_marginal = {**x_marginal, **x_s}
                     predictions.append(self._model_function(x_marginal))
                 y = _get_mean_model_output(predictions)
